@@ -26,6 +26,8 @@ UNITS = {
     "feat.f64": ("units/feat.rs", "f64"),
     "featp": ("units/featp.rs", "f64"),
     "bin.of64": ("units/bin.rs", "of64"),
+    "reg.of64": ("units/reg.rs", "of64"),
+    "reg.f64": ("units/reg.rs", "f64"),
     "bin.f64": ("units/bin.rs", "f64"),
 }
 
@@ -126,7 +128,7 @@ PLAN["C12"] = dict(
 )
 
 PLAN["C04"] = dict(
-    verus=dict(quick=["bin.of64"], thorough=["bin.of64", "bin.f64"]),
+    verus=dict(quick=["bin.of64", "reg.of64"], thorough=["bin.of64", "bin.f64", "reg.of64", "reg.f64"]),
     kani=dict(quick=[], thorough=[]),
     level="proof",
 )
